@@ -305,6 +305,12 @@ def main(argv):
     spec_fail = [r for r in rows if " S0" in r["verdict"] or r["verdict"].startswith("ERR")]
     mism = [r for r in rows if r["verdict"].startswith("M0")]
     assume_fail = [s for s in side if s[0] == "!ASSUME"]
+    # W0 = the case's oracle values fail the executable well-formedness monitor: a broken
+    # standard-library assumption, reported as such and excluded from the verdicts
+    wf_fail = [r for r in rows if " W0" in r["verdict"]]
+    assume_fail += [["!ASSUME", "oracle values of case %d are not well-formed: %s" % (r["idx"], r["input"][:200])] for r in wf_fail[:20]]
+    spec_fail = [r for r in spec_fail if " W0" not in r["verdict"]]
+    mism = [r for r in mism if " W0" not in r["verdict"]]
 
     def match_known(sig):
         for k in kfs:
@@ -335,7 +341,7 @@ def main(argv):
                 viols.append((what, {"kind": "impl-violates-spec", "what": what, "case": s[2] if len(s) > 2 else "", "seed": seed, "tier": tier}, True))
     if real_spec_fail:
         r = min(real_spec_fail, key=lambda r: len(r["input"]))
-        exp = r["verdict"].split(" ", 2)[2] if r["verdict"].startswith("M0") and r["verdict"].count(" ") >= 2 else None
+        exp = r["verdict"].replace(" W0", "").split(" ", 2)[2] if r["verdict"].startswith("M0") and r["verdict"].count(" ") >= 2 else None
         viols.append(("implementation output rejected by the property's oracle (%d cases; smallest shown)" % len(real_spec_fail),
                       {"kind": "impl-violates-spec", "theorem_or_correspondence": prop.get("spec_name", pid + " spec oracle"),
                        "seed": seed, "tier": tier, "index": r["idx"], "case": r["input"], "observed": r["obs"],
